@@ -294,3 +294,5 @@ func NewRequest(method, rawTarget, host, remote string, headers []KV, body []byt
 }
 
 func bufioReader(b *bytes.Buffer) *bufio.Reader { return bufio.NewReader(b) }
+
+func writeFile(path string, data []byte) error { return os.WriteFile(path, data, 0o600) }
